@@ -234,7 +234,13 @@ func c12GenApp(t *rapid.T, format string) c12App {
 				me.Body = pick(t, tuples, "bodytype")
 			}
 			nr := rapid.IntRange(1, 3).Draw(t, "nrets")
-			for _, code := range c12Distinct(t, c12Codes, nr, "codes") {
+			codes := c12Distinct(t, c12Codes, nr, "codes")
+			if format == "openapi3" && rapid.Bool().Draw(t, "errorret") {
+				// a named return: `return error <: T` is the operation's default response (OpenAPI 3 exporter;
+				// the Swagger 2 exporter has no place for it)
+				codes = append(codes, "error")
+			}
+			for _, code := range codes {
 				r := c12Ret{Code: code, Type: pick(t, tuples, "rettype")}
 				switch rapid.IntRange(0, 11).Draw(t, "retshape") {
 				case 0, 1, 2:
